@@ -14,6 +14,7 @@ import Acpi.Tables.Entries
 import Acpi.Tables.Build
 import Acpi.Tables.Wf
 import Acpi.Tables.Whole
+import Acpi.Tables.Linked
 import Acpi.Spec.Walk
 import Acpi.Spec.Counts
 import Acpi.Spec.OptionOracle
@@ -147,6 +148,96 @@ def tableIdOf (t : String) (ctor : List Nat) : Option TableId :=
   | "rimt" => some .rimt | "viot" => some .viot | "hest" => some .hest | "rqsc" => some .rqsc
   | _ => none
 
+
+/-! ### linked programs: the model computes the reference values itself (Acpi.Tables.Linked) -/
+
+/-- where a `#k` handle reference sits in an op token -/
+inductive Place where
+  | n (i : Nat)                         -- i-th constructor number
+  | s (i e : Nat)                       -- e-th element of the i-th sub-list
+  | o (name : String) (occ arg : Nat)   -- `arg`-th value of the `occ`-th option called `name`
+deriving Repr, DecidableEq
+
+/-- `#k` ↦ (0, some k); a plain number ↦ (n, none) -/
+def numOrRef (t : String) : Option (Nat × Option Nat) :=
+  if t.startsWith "#" then (nat? (t.drop 1).toString).map fun k => (0, some k)
+  else (nat? t).map fun n => (n, none)
+
+/-- parse an op token that may contain `#k` references: the op with 0 at every reference, and the
+    references with their places -/
+def parseOpTokRefs (t : String) : Option (OpTok × List (Place × Nat)) := do
+  let (obs, t) := if t.startsWith "!" then (false, (t.drop 1).toString) else (true, t)
+  match t.splitOn "/" with
+  | [k, ns, bs, ss, os] =>
+    let kind ← kindOfString k
+    let nl ← if ns = "-" ∨ ns = "_" then some [] else (ns.splitOn ",").mapM numOrRef
+    let b ← parseBlobs bs
+    let subOf (t : String) : Option (List (Nat × Option Nat)) :=
+      if t = "-" ∨ t = "_" then some [] else (t.splitOn ".").mapM numOrRef
+    let sl ← if ss = "-" then some [] else (ss.splitOn ";").mapM subOf
+    let optOf (t : String) : Option (String × List (Nat × Option Nat)) :=
+      match t.splitOn "=" with
+      | [n] => some (n, [])
+      | [n, vs] => (subOf vs).map fun v => (n, v)
+      | _ => none
+    let ol ← if os = "-" then some [] else (os.splitOn ",").mapM optOf
+    let nrefs := (nl.mapIdx fun i x => x.2.map fun k => (Place.n i, k)).filterMap id
+    let srefs := (sl.mapIdx fun i l => (l.mapIdx fun e x => x.2.map fun k => (Place.s i e, k)).filterMap id).flatten
+    let orefs := (ol.mapIdx fun j o =>
+      let occ := ((ol.take j).filter (fun p => p.1 = o.1)).length
+      (o.2.mapIdx fun a x => x.2.map fun k => (Place.o o.1 occ a, k)).filterMap id).flatten
+    some ({ observe := obs, kindName := k, kind,
+            ctor := { n := (nl.map (·.1)).toArray, b := b.toArray, s := sl.map (·.map (·.1)) },
+            opts := ol.map fun o => { name := o.1, v := o.2.map (·.1) } }, nrefs ++ srefs ++ orefs)
+  | _ => none
+
+/-- the handle classes of the harness (`#k` = the k-th handle of that class) -/
+inductive HClass where | procs | caches | isas | cmos | iommus | trans
+deriving DecidableEq
+
+def classOfKind : Kind → Option HClass
+  | .proc => some .procs | .cache => some .caches | .isa => some .isas | .cmo => some .cmos
+  | .iommu => some .iommus | .pciiommu | .mmioiommu => some .trans
+  | _ => none
+
+/-- which reference position of the linked-program model a place is, and which class it draws from -/
+def refPosOf (op : OpTok) (pl : Place) : Option (RefPos × HClass) :=
+  match op.kind, pl with
+  | .proc, .n 0 => some (.procParent, .procs)
+  | .proc, .o "cache" occ 0 => some (.procCache occ, .caches)
+  | .cache, .o "next" occ 0 =>
+    if occ + 1 = (op.opts.filter (·.name = "next")).length then some (.cacheNext, .caches) else none
+  | .hart, .n 1 => some (.hartIsa, .isas)
+  | .hart, .o "cmo" occ 0 => some (.hartCmo occ, .cmos)
+  | .pcirange, .n 8 => some (.viotTrans, .trans)
+  | .mmioep, .n 2 => some (.viotTrans, .trans)
+  | .pcierc, .s i 3 => some (.idmapDst i, .iommus)
+  | .platform, .s i 3 => some (.idmapDst i, .iommus)
+  | _, _ => none
+
+/-- the linked program of a case: every `#k` becomes "the handle returned by add call j" -/
+def linkedOfTokens (toks : List String) : Option (List LAddOp) := do
+  let parsed ← toks.mapM parseOpTokRefs
+  let mut out : List LAddOp := []
+  let mut adds : List (HClass × Nat) := []      -- (class, add index) of the handle-returning calls so far
+  let mut i := 0
+  for (op, refs) in parsed do
+    let aop : AddOp := { k := op.kind, ctor := op.ctor, opts := op.opts }
+    let mut rs : List (RefPos × Nat) := []
+    for (pl, k) in refs do
+      match refPosOf op pl with
+      | none => pure ()
+      | some (pos, cls) =>
+        match ((adds.filter (·.1 = cls)).map (·.2))[k]? with
+        | some j => if (getRef pos aop).isSome then rs := rs ++ [(pos, j)]
+        | none => pure ()
+    out := out ++ [{ op := aop, refs := rs }]
+    match classOfKind op.kind with
+    | some c => adds := adds ++ [(c, i)]
+    | none => pure ()
+    i := i + 1
+  return out
+
 structure Obs where
   raw : Bytes
   handle : Option Nat
@@ -245,6 +336,7 @@ def checkTbl (case impl : List String) : List Fail := Id.run do
     let imgTok := (impl.find? (fun t => t.startsWith "img=")).map (fun t => (t.drop 4).toString)
     let some obs := obsToks.mapM parseObs | return bad "observation"
     if obs.length = 0 then return bad "no observation"
+    let rawOpToks := opToks
     let opToks := (List.range opToks.length).map fun i =>
       let refs := match obs[i + 1]? with | some (some o) => o.refs | _ => []
       substRefs (opToks.getD i "") refs
@@ -424,6 +516,24 @@ def checkTbl (case impl : List String) : List Fail := Id.run do
             let strip (bs : Bytes) : Bytes := bs.take 8 ++ bs.drop 10
             if strip tm.image ≠ strip img then
               fails := fails ++ [⟨"corr", "C04", "whole-program-image", s!"{tname}: runTable's image differs from the implementation's at byte {firstDiffAt (strip tm.image) (strip img)} (bytes 8, 9 left out)"⟩]
+            else
+              -- the linked program (Acpi.Tables.Linked.runLinked — what C05.linked_references_resolve is
+              -- about): here the model computes every reference value itself, as the handle its own
+              -- engine returned for the add call referred to, instead of taking it from the harness
+              match linkedOfTokens rawOpToks with
+              | none => fails := fails ++ bad "linked program"
+              | some ls =>
+                if refsWellTyped ls then
+                  match runLinked T ⟨oid, otab, orev⟩ ls with
+                  | none => fails := fails ++ [⟨"corr", "C05", "linked-program", s!"{tname}: runTable accepts the program with the implementation's reference values, runLinked refuses it"⟩]
+                  | some (lhs, tl, _) =>
+                    if strip tl.image ≠ strip img then
+                      fails := fails ++ [⟨"corr", "C05", "linked-program-image", s!"{tname}: with reference fields computed by the model (handles of earlier add calls) the image differs from the implementation's at byte {firstDiffAt (strip tl.image) (strip img)}"⟩]
+                    for (hv, idx, _) in handles do
+                      if lhs[idx]? ≠ some hv then
+                        fails := fails ++ [⟨"corr", "C05", "linked-handle", s!"{tname}: add call #{idx}: model handle {lhs[idx]?.getD 0}, implementation {hv}"⟩]
+                else
+                  fails := fails ++ [⟨"note", "-", "linked-program-not-well-typed", tname⟩]
         match Spec.tableEntries shape img with
         | .error e => fails := fails ++ [⟨"prop", "C03", if nRdpas > 0 then "walk-with-rdpas" else "walk", s!"{tname}: {e}"⟩]
         | .ok es =>
